@@ -532,6 +532,10 @@ impl Matcher for KittyKeyboardMatcher {
 
     fn decode(&self, data: &[u8]) -> Option<Self::Item> {
         let data = &data[2..data.len() - 1]; // skip CSI and `u`
+        if data.is_empty() {
+            // `CSI u` without key code is not a key event
+            return None;
+        }
         if data[0] == b'?' {
             let level = number_decode(&data[1..data.len()])?;
             return Some(TerminalEvent::KeyboardLevel(level));
